@@ -9,7 +9,7 @@ LEVEL = "proof"
 MANIFEST = {
     "technique": "Coq proof over a hand-written Gallina model of aac.AudioSpecificConfig / aac.ADTSHeader codecs (bit lists) "
                  "+ complete enumeration of the finite domain on both sides + differential correspondence (extracted OCaml vs Go)",
-    "level_text": "Theorems (coq/c18/C18Theorems.v, 27, all closed under the global context): DecodeAudioSpecificConfig(Encode(c)) = c for every canonical configuration "
+    "level_text": "Theorems (coq/c18/C18Theorems.v, 34, all closed under the global context): DecodeAudioSpecificConfig(Encode(c)) = c for every canonical configuration "
                   "(object types 2/5/29, 16 channel configurations, every frequency 0..2^24-1 incl. the 13 table values; general "
                   "bit-level proof) and again by complete enumeration of the table part inside Coq; the two frequency tables are "
                   "mutually inverse; DecodeADTSHeader(Encode(h)) = (h, 0) for all profiles 1..4, 16 frequency indices, 8 channel "
@@ -19,7 +19,17 @@ MANIFEST = {
                   "DecodeAudioSpecificConfig returns the configuration built (entry round trip general in the DecConfig bytes); "
                   "two uint16 accessors/fields are exact only below 65536 and refuted above (known findings F1, F2); the bit-list "
                   "reading of bits.Reader/bits.Writer is tied by proof to the Go-level machines of C13Model (same decoders instantiated "
-                  "with read_plain agree on every byte string; write_plain/flush_plain emit the model's bytes). On the implementation the complete domain is enumerated on every run "
+                  "with read_plain agree on every byte string; write_plain/flush_plain emit the model's bytes). HISTORIES (unbounded, "
+                  "by induction over the list of operations): for every interleaving of SetAACDescriptor builds on any tracks of any init "
+                  "segments, entry encodes and init-segment encodes, the i-th entry is the one its own build made, decodes (both decoder "
+                  "paths) to the configuration of that build, is never changed by later operations, and every encode observed in the middle "
+                  "shows its final bytes (C18_entries_independent, C18_history_entry_stable, C18_history_encode_obs); k configurations / "
+                  "k junk+ADTS headers written back to back into one writer and read back by k calls on one reader come back each as "
+                  "itself, each call consuming exactly its own bytes (C18_asc_stream_independent, C18_adts_stream_independent). In the "
+                  "model an entry is a pure value, so these are immediate; whether the Go objects behave like values (an entry keeps a "
+                  "[]byte that CreateEsdsBox does not copy) is EXPLORED: correspondence over generated histories (k = 1..4 builds over "
+                  "1..3 init segments, all ordered pairs of the 39 table configurations in the thorough tier) and a history search that "
+                  "reads every entry four ways after the whole history and compares every encode of an entry over time. On the implementation the complete domain is enumerated on every run "
                   "(exhaustive: true): all table configurations, all 16 x 8 x 8185 ADTS headers, every junk length 0..187.",
     "level_note": "Trusted: Coq kernel, extraction (ExtrOcamlBasic), the OCaml/Go glue, the C13Model transcription of bits.Reader/bits.Writer "
                   "(the bit-list reading used here is proved equivalent to it; C13Model itself is tied to the code by correspondence, here and in C13). Explicit 24-bit frequencies are covered by the general proof and "
@@ -103,7 +113,13 @@ def run(ctx):
                              "DecodeADTSHeader: every junk length 0..200 x 8 patterns",
                              "SetAACDescriptor: 6 object types (3 supported) x 13 table frequencies + explicit values; "
                              "DecodeBox on each produced entry, truncations and byte mutations",
-                             "bits.Writer / bits.Reader against the bit-list reading: %d random op sequences each" % (10 * n)],
+                             "bits.Writer / bits.Reader against the bit-list reading: %d random op sequences each" % (10 * n),
+                             "histories: %s ordered pairs of the 3 x 13 table configurations as two-build histories + %d generated "
+                             "histories (1..4 builds incl. failing ones, 1..3 init segments, second entries on a track, interleaved "
+                             "entry / init-segment encodes), every observation and the final state of every entry against hrun"
+                             % ("all 1521" if thorough else "a stride of the 1521", n),
+                             "streams: %d x (1..4 configurations into one writer, k DecodeAudioSpecificConfig calls on one reader with "
+                             "bytes-left after each), %d malformed streams; the same for junk+ADTS headers" % (n, n)],
     }
     ctx.cov["samples"] += [l[:300] for l in lines[5000:5002]] + [l[:300] for l in lines if l.startswith("HX\t")][:1] \
         + [l[:300] for l in lines if l.startswith("HD\t")][700:702] + [l[:300] for l in lines[-2:]]
@@ -162,7 +178,9 @@ def run(ctx):
                        "produced encoding + truncations + all short inputs + %d random strings; ADTS Encode/Decode over the complete "
                        "index x channel x length domain (range hashes), junk 0..200 x 8 patterns, malformed headers. distinct = distinct case "
                        "lines + enumerated headers. search: Decode(Encode(x)) = x and offset = |junk| on the real code over the complete "
-                       "domain, SetAACDescriptor -> file encode -> both decoders -> DecodeAudioSpecificConfig" % n)
+                       "domain, SetAACDescriptor -> file encode -> both decoders -> DecodeAudioSpecificConfig; histories: every entry read from memory / "
+                       "DecodeBox / DecodeBoxSR / the decoded init segment after the whole history gives its own configuration and every "
+                       "encode of an entry over time gives the same bytes; configurations and headers streamed through one writer/reader" % n)
 
 
 def replay(ctx, path):
